@@ -4,7 +4,7 @@
         the System.net history [sim] a loop-network history amounts to (one System step per processor input, in order);
      2. the EVM watcher's re-observation path (model/EvmLog.v [xreobserve], by_transaction.go over raw receipts) as an instance of the
         watcher oracle of model/ReobsLoop.v;
-     3. per-node publication logs over System.net histories (for the agreement theorem).
+   (per-node publication logs over System.net histories, for the agreement theorem: model/PubLog.v)
    Proofs: proofs/ClosureProofs*.v. *)
 From Coq Require Import List ZArith Bool Arith.
 From Coq Require Import Strings.Byte.
@@ -113,22 +113,3 @@ Definition evm_watch : Z -> R.req -> Z -> list msgpub :=
   fun c r t => if is_evm_chain c then evm_reobs_msgs (ecfg c) (enode c r t) else other c r t.
 End EvmOracle.
 
-(* ------------------------------------------------------------------ 3. per-node publication logs over System.net histories *)
-Definition vaas_of (outs : list out) : list bytes := flat_map (fun x => match x with SendVAA b => [b] | _ => [] end) outs.
-
-Section Pubs.
-Variable recover : bytes -> bytes -> option bytes.
-Variable keccak : bytes -> bytes.
-Variable gov_chain : Z.
-Variable gov_addr : bytes.
-Variable owns : nat -> addr.
-Variable signs : nat -> bytes -> bytes.
-(* the SignedVAAWithQuorum byte strings node i broadcast along a network history, oldest first *)
-Fixpoint pubs_of (i : nat) (n : net) (xs : list nop) : list bytes :=
-  match xs with
-  | [] => []
-  | x :: t =>
-    (if (target x =? i)%nat then vaas_of (snd (nstep recover keccak gov_chain gov_addr owns signs n x)) else [])
-    ++ pubs_of i (fst (nstep recover keccak gov_chain gov_addr owns signs n x)) t
-  end.
-End Pubs.
